@@ -9,7 +9,7 @@ import (
 // page size) is listed by following nextPageToken to the end.  thorough: all subsets.
 
 var c11NamesMem = []string{"a", "a.txt", "a/b", "a/b/c", "a-b/c", "a0", "b/", "ab", "a/", "b"}
-var c11NamesFile = []string{"a.txt", "a-b/c", "a/b", "a/c/d", "a0", "b", "foo-bar/x", "foo/y", "foo.d/z", "zz"}
+var c11NamesFile = []string{"a.txt", "a-b/c", "a/b", "a/c/d", "a0", "b", "foo-bar/x", "foo/y", "foo.d/z", "snap.emumeta/1"}
 var c11Prefixes = []string{"", "a", "a/", "a-", "b", "foo", "foo-", "a/b"}
 var c11Delims = []string{"", "/", "-", "//", "b/", "."}
 
